@@ -972,10 +972,12 @@ def self_check(ctx, g, ncase):
             rr, _ = call_caller(fn, nn or [2, 2, 1], size, cen, angles, 0)
             r0, _ = call_caller(fn, nn or [2, 2, 1], size, [0.0, 0.0, 0.0], [0.0, 0.0, 0.0], 0)
             lo = fn.startswith('t.')
+            # float32 results: the absolute error scales with the size of the terms that are added (rotated extent + centre), not with the result
+            mag = 1.0 + max(abs(x) for x in list(size) + list(cen))
             for j in range(rr.shape[0]):
                 for k in range(3):
-                    cmp('%s_%d_%d' % (pre, j, k), env, rr[j, k], 1e-5 if lo else 1e-9, 3e-5 if lo else 1e-11)
-                    cmp('%s_%d_%d' % (flatpre, j, k), env, r0[j, k], 1e-5 if lo else 1e-9, 3e-5 if lo else 1e-11)
+                    cmp('%s_%d_%d' % (pre, j, k), env, rr[j, k], 1e-5 if lo else 1e-9, 2e-5 * mag if lo else 1e-11)
+                    cmp('%s_%d_%d' % (flatpre, j, k), env, r0[j, k], 1e-5 if lo else 1e-9, 2e-5 * mag if lo else 1e-11)
         loc, look = gen_vec(rng, 1.0), gen_vec(rng, 1.0)
         for k in range(3): env['l_%d' % k] = loc[k]; env['k_%d' % k] = look[k]
         tn = nt.tilt_towards(list(loc), list(look)); tq = tt.tilt_towards(list(loc), list(look))
